@@ -132,6 +132,8 @@ def run(pid, tier, seed, replay=None):
             stats["crashes"] += 1
             if len(crash_examples) < 3:
                 crash_examples.append(dict(instance=it[3], error=it[2][:300]))
+            # an exception while evaluating an ACCEPTED well-posed input: the identities cannot hold
+            violations.append(dict(kind="crash", detail=it[2][:600], instance=it[3]))
         elif it[0] in ("nonfinite", "notrepr"):
             violations.append(dict(kind=it[0], detail=it[2], instance=it[3]))
         else:
